@@ -104,6 +104,12 @@ run in LIFO order (`closes` lists them in execution order) -/
 def pipePool {σ γ : Type} (s0 : σ) (inCap : Nat) (outCap : Nat → Nat) (closes : List Nat) (gated := false) : Pool σ α γ :=
   Pool.init 1 (fun _ => 0) s0 (fun _ => inCap) outCap closes gated
 
+/-- `pipe.Take`: `if n <= 0 { close(out); return out }` — no goroutine is started, `out` is closed at
+once (the deferred-close list runs with zero workers); otherwise one worker with counter `n` -/
+def takePool (n : Int) (inCap : Nat) (gated := false) : Pool Int α α :=
+  if n ≤ 0 then Pool.init 0 (fun _ => 0) n (fun _ => inCap) (fun _ => inCap) [0] gated
+  else pipePool n inCap (fun _ => inCap) [0] gated
+
 /-- a `fork` stage: `par` goroutines sharing input 0; value/error outputs have capacity `par`
 (`done` of ForEach/Void has capacity 0), closed by the closer goroutine in source order -/
 def forkPool {σ γ : Type} (s0 : σ) (par inCap : Nat) (outCap : Nat → Nat) (closes : List Nat) (gated := false) : Pool σ α γ :=
